@@ -6,6 +6,14 @@
                                  create on an existing name, release
    over a model of the host's file-size semantics (pwrite with/without O_APPEND, O_TRUNC on
    open, fallocate modes, ftruncate).  Only regular files that already exist are modelled.
+
+   Flag words are carried whole (32 bits): [openat_word] is the word that open_inode hands to openat(2)
+   and [setfl_word] the word that check_fd_flags hands to fcntl(F_SETFL), both as the code computes them
+   from the word of the request (get_writeback_open_flags, allow_direct_io, O_CLOEXEC, the O_NOFOLLOW /
+   O_CREAT masks of reopen_fd_through_proc); [host_open] / [host_setfl] say what linux does with every bit
+   of such a word on an existing regular file (O_TRUNC truncates whatever the access mode; O_PATH,
+   O_DIRECTORY, __O_TMPFILE; F_SETFL only changes status bits).  [io_open_flags] is the word with which
+   READ / WRITE / FALLOCATE open their per-request descriptor under no_open.
    No proofs in this file. *)
 From Coq Require Import List NArith Bool.
 Import ListNotations.
@@ -14,6 +22,7 @@ Local Open Scope N_scope.
 Definition EPERM : N := 1.
 Definition EBADF : N := 9.
 Definition EEXIST : N := 17.
+Definition ENOTDIR : N := 20.
 Definition EINVAL : N := 22.
 Definition EFBIG : N := 27.
 Definition ENOSYS : N := 38.
@@ -23,9 +32,16 @@ Definition I64_MAX : N := 9223372036854775807.
 
 (* open(2) flag bits, x86_64 linux *)
 Definition O_ACCMODE : N := 3.
+Definition O_CREAT : N := 64.
 Definition O_EXCL : N := 128.
 Definition O_TRUNC : N := 512.
 Definition O_APPEND : N := 1024.
+Definition O_DIRECT : N := 16384.
+Definition O_DIRECTORY : N := 65536.
+Definition O_NOFOLLOW : N := 131072.
+Definition O_CLOEXEC : N := 524288.
+Definition O_PATH : N := 2097152.
+Definition O_TMPFILE_BIT : N := 4194304.          (* __O_TMPFILE; O_TMPFILE = __O_TMPFILE | O_DIRECTORY *)
 Definition has (flags bit : N) : bool := negb (N.land flags bit =? 0).
 Definition acc_mode (flags : N) : N := N.land flags O_ACCMODE.   (* 0 RDONLY 1 WRONLY 2 RDWR *)
 
@@ -57,8 +73,13 @@ Definition host_pwrite (H : host) (size : N) (append : bool) (off len : N) : N *
     else (0, N.max size (N.min (pos + len) (ho_maxbytes H))).
 
 (* ---------------------------------------------------------------- file system state *)
-(* an open handle: inode, HandleData.flags, access mode of the host fd, O_APPEND state of the host fd *)
-Record hdl := mk_hdl { hd_file : N; hd_flags : N; hd_acc : N; hd_append : bool }.
+(* a host descriptor: access mode bits it was opened with (0 RDONLY, 1 WRONLY, 2 RDWR, 3 = neither readable nor
+   writable), its O_APPEND status bit, whether it is an O_PATH descriptor *)
+Record fdst := mk_fd { fd_acc : N; fd_append : bool; fd_path : bool }.
+(* an open handle: inode, HandleData.flags (the client's word), the host fd *)
+Record hdl := mk_hdl { hd_file : N; hd_flags : N; hd_fd : fdst }.
+Definition fd_readable (fd : fdst) : bool := negb (fd_path fd) && ((fd_acc fd =? 0) || (fd_acc fd =? 2)).
+Definition fd_writable (fd : fdst) : bool := negb (fd_path fd) && ((fd_acc fd =? 1) || (fd_acc fd =? 2)).
 Record state := mk_state { sizes : N -> N; slots : N -> option hdl }.
 (* which of the proposed refusals (fixes/C18-seal-size-trunc-append.patch) the source tree contains; read
    from the source by props/c18.py on every run and validated by the tie:
@@ -69,7 +90,8 @@ Record fixes := mk_fixes { fx_open : bool; fx_create : bool; fx_append : bool }.
 Definition no_fixes : fixes := mk_fixes false false false.
 Definition all_fixes : fixes := mk_fixes true true true.
 
-Record cfg := mk_cfg { c_seal : bool; c_no_open : bool; c_fx : fixes; c_writeback : bool }.
+(* c_dio = Config::allow_direct_io *)
+Record cfg := mk_cfg { c_seal : bool; c_no_open : bool; c_fx : fixes; c_writeback : bool; c_dio : bool }.
 
 Inductive req : Type :=
 | Open (slot file flags : N)
@@ -77,7 +99,7 @@ Inductive req : Type :=
 | Read (slot file rflags : N)                 (* READ: its flag word goes through check_fd_flags too *)
 | Write (slot file off len wflags : N)
 | Fallocate (slot file mode off len : N)
-| Setattr (file : N) (with_size : bool) (newsize : N)
+| Setattr (file : N) (with_size : bool) (newsize : N) (fh : option N)   (* fh: FATTR_FH and the handle's slot *)
 | Release (slot file : N).                    (* RELEASE of the handle on nodeid [file] *)
 
 Definition set_size (s : state) (f v : N) : state :=
@@ -96,81 +118,163 @@ Definition seal_size_check (is_write : bool) (file_size offset size mode : N) : 
     else if (op =? FL_COLLAPSE_RANGE) || (op =? FL_INSERT_RANGE) then EPERM
     else EINVAL.
 
-(* open_inode: reopen through /proc/self/fd with the client's flags (O_CREAT, O_NOFOLLOW
-   stripped): O_TRUNC truncates an existing regular file whatever the access mode (root) *)
-Definition open_effect (s : state) (file flags : N) : state :=
-  if has flags O_TRUNC then set_size s file 0 else s.
+(* ---------------------------------------------------------------- flag words: what the code does with them *)
+(* get_writeback_open_flags: with the writeback cache negotiated, O_WRONLY becomes O_RDWR and O_APPEND is
+   cleared; every other bit of the word is kept *)
+Definition wb_flags (wb : bool) (flags : N) : N :=
+  let f1 := if wb && (acc_mode flags =? 1) then N.lor (clear_bits flags O_ACCMODE) 2 else flags in
+  if wb && has flags O_APPEND then clear_bits f1 O_APPEND else f1.
 
-(* get_writeback_open_flags: with the writeback cache negotiated, O_WRONLY is opened O_RDWR and O_APPEND is
-   not passed to the host; HandleData keeps the client's flag word *)
-Definition new_hdl (wb : bool) (file flags : N) : hdl :=
-  mk_hdl file flags (if wb && (acc_mode flags =? 1) then 2 else acc_mode flags)
-         (has flags O_APPEND && negb wb).
+(* open_inode(inode, flags) -> InodeHandle::open_file -> reopen_fd_through_proc: the word that reaches openat(2):
+   get_writeback_open_flags, O_DIRECT dropped unless allow_direct_io, O_CLOEXEC added, O_NOFOLLOW and O_CREAT
+   masked.  Every other bit of [flags] - O_TRUNC included - reaches the host. *)
+Definition openat_word (wb dio : bool) (flags : N) : N :=
+  let f := wb_flags wb flags in
+  let f := if negb dio && has flags O_DIRECT then clear_bits f O_DIRECT else f in
+  clear_bits (clear_bits (N.lor f O_CLOEXEC) O_NOFOLLOW) O_CREAT.
 
-(* get_data: the handle, or under no_open a fresh O_RDWR fd on the inode *)
-Definition get_data (C : cfg) (s : state) (slot file : N) : option hdl :=
-  if c_no_open C then Some (mk_hdl file 2 2 false)
+(* check_fd_flags: the word that reaches fcntl(fd, F_SETFL, .) *)
+Definition setfl_word (wb dio : bool) (flags : N) : N :=
+  let f := wb_flags wb flags in
+  if negb dio then clear_bits f O_DIRECT else f.
+
+(* get_data(handle, inode, flags) of READ (O_RDONLY), WRITE and FALLOCATE (O_RDWR): under no_open the descriptor
+   is opened for this request with the handler's fixed access mode; the flag word of the request is NOT part of
+   the word given to open_inode (it only goes to check_fd_flags afterwards) *)
+Definition io_open_flags (access reqflags : N) : N := access.
+
+(* ---------------------------------------------------------------- flag words: what the host does with them *)
+(* openat(2) by root of an existing regular file (through /proc/self/fd/N): (errno, new size, descriptor).
+   build_open_flags: O_PATH keeps only O_DIRECTORY|O_NOFOLLOW|O_CLOEXEC (so no truncation); __O_TMPFILE needs
+   O_DIRECTORY and write access, else EINVAL; O_DIRECTORY on a regular file is ENOTDIR before any truncation;
+   otherwise O_TRUNC truncates whatever the access mode, and the descriptor's O_APPEND is the word's *)
+Definition no_fd : fdst := mk_fd 0 false false.
+Definition host_open (size word : N) : N * N * fdst :=
+  if has word O_PATH then
+    (if has word O_DIRECTORY then (ENOTDIR, size, no_fd) else (0, size, mk_fd 3 false true))
+  else if has word O_TMPFILE_BIT then
+    (if has word O_DIRECTORY && negb (acc_mode word =? 0) then (ENOTDIR, size, no_fd) else (EINVAL, size, no_fd))
+  else if has word O_DIRECTORY then (ENOTDIR, size, no_fd)
+  else (0, (if has word O_TRUNC then 0 else size), mk_fd (acc_mode word) (has word O_APPEND) false).
+
+(* fcntl(fd, F_SETFL, word): EBADF on an O_PATH descriptor; else only status bits change (O_APPEND here;
+   O_NONBLOCK, O_NOATIME, O_DIRECT do not matter for sizes); access mode and every open-time bit (O_TRUNC,
+   O_CREAT, O_EXCL, ...) of the word are ignored *)
+Definition host_setfl (fd : fdst) (word : N) : N * fdst :=
+  if fd_path fd then (EBADF, fd) else (0, mk_fd (fd_acc fd) (has word O_APPEND) false).
+
+(* openat(dir, name, word) with O_CREAT|O_EXCL in [word], [name] an existing regular file (linux >= 6.4) *)
+Inductive create_res := CrErr (e : N) | CrPath | CrExists.
+Definition host_create_excl (word : N) : create_res :=
+  if has word O_PATH then (if has word O_DIRECTORY then CrErr ENOTDIR else CrPath)   (* O_PATH drops O_CREAT|O_EXCL *)
+  else if has word O_TMPFILE_BIT || has word O_DIRECTORY then CrErr EINVAL
+  else CrExists.
+
+(* ---------------------------------------------------------------- the handlers *)
+Definition upd_size (s : state) (f v : N) : state := if v =? sizes s f then s else set_size s f v.
+
+(* open_inode: (errno, state, descriptor) *)
+Definition open_inode (C : cfg) (s : state) (file flags : N) : N * state * fdst :=
+  let '(e, sz, fd) := host_open (sizes s file) (openat_word (c_writeback C) (c_dio C) flags) in
+  (e, upd_size s file sz, fd).
+
+(* get_data: the handle, or under no_open a fresh descriptor opened with [gd_flags] (HandleData.flags = gd_flags) *)
+Definition get_data (C : cfg) (s : state) (slot file gd_flags : N) : N * state * option hdl :=
+  if c_no_open C then
+    let '(e, s1, fd) := open_inode C s file gd_flags in
+    if e =? 0 then (0, s1, Some (mk_hdl file gd_flags fd)) else (e, s1, None)
   else match slots s slot with
-       | Some h => if hd_file h =? file then Some h else None
-       | None => None
+       | Some h => if hd_file h =? file then (0, s, Some h) else (EBADF, s, None)
+       | None => (EBADF, s, None)
        end.
 
-(* check_fd_flags: fcntl(F_SETFL, flags) when the stored flags differ; F_SETFL changes O_APPEND
-   (and status flags that do not matter here), never the access mode *)
-Definition check_fd_flags (wb : bool) (h : hdl) (flags : N) : hdl :=
-  if hd_flags h =? flags then h
-  else mk_hdl (hd_file h) flags (hd_acc h) (has flags O_APPEND && negb wb).   (* get_writeback_open_flags applies here too *)
+(* check_fd_flags: fcntl(F_SETFL, setfl_word flags) when the stored word differs from the request's; the new
+   word is stored only when the fcntl succeeded *)
+Definition check_fd_flags (C : cfg) (h : hdl) (flags : N) : N * hdl :=
+  if hd_flags h =? flags then (0, h)
+  else let '(e, fd) := host_setfl (hd_fd h) (setfl_word (c_writeback C) (c_dio C) flags) in
+       if e =? 0 then (0, mk_hdl (hd_file h) flags fd) else (e, h).
+
+(* setattr: the handle named by FATTR_FH (ignored under no_open); None = handle of another inode / unknown *)
+Definition setattr_data (C : cfg) (s : state) (file : N) (fh : option N) : option (option hdl) :=
+  if c_no_open C then Some None
+  else match fh with
+       | None => Some None
+       | Some k => match slots s k with
+                   | Some h => if hd_file h =? file then Some (Some h) else None
+                   | None => None
+                   end
+       end.
 
 Definition step (H : host) (C : cfg) (s : state) (r : req) : N * state :=
   match r with
   | Open slot file flags =>
     if c_no_open C then (ENOSYS, s)
     else if fx_open (c_fx C) && c_seal C && has flags O_TRUNC then (EPERM, s)
-    else (0, set_slot (open_effect s file flags) slot (Some (new_hdl (c_writeback C) file flags)))
+    else let '(e, s1, fd) := open_inode C s file flags in
+         if e =? 0 then (0, set_slot s1 slot (Some (mk_hdl file flags fd))) else (e, s1)
   | Create slot file flags =>
-    (* create_file_excl fails with EEXIST: error if O_EXCL, else open_inode(entry.inode, flags) *)
-    if has flags O_EXCL then (EEXIST, s)
-    else if fx_create (c_fx C) && c_seal C && has flags O_TRUNC then (EPERM, s)
-    else
-      let s1 := open_effect s file flags in
-      if c_no_open C then (0, s1) else (0, set_slot s1 slot (Some (new_hdl (c_writeback C) file flags)))
+    (* create_file_excl(dir, name, get_writeback_open_flags(flags) | O_CREAT | O_EXCL): EEXIST -> error if O_EXCL,
+       else open_inode(entry.inode, flags); an O_PATH word opens the existing file and counts as created *)
+    let cflags := wb_flags (c_writeback C) flags in
+    match host_create_excl (N.lor (N.lor cflags O_CREAT) O_EXCL) with
+    | CrErr e => (e, s)
+    | CrPath => if c_no_open C then (0, s) else (0, set_slot s slot (Some (mk_hdl file flags (mk_fd 3 false true))))
+    | CrExists =>
+      if has cflags O_EXCL then (EEXIST, s)
+      else if fx_create (c_fx C) && c_seal C && has flags O_TRUNC then (EPERM, s)
+      else let '(e, s1, fd) := open_inode C s file flags in
+           if negb (e =? 0) then (e, s1)
+           else if c_no_open C then (0, s1) else (0, set_slot s1 slot (Some (mk_hdl file flags fd)))
+    end
   | Read slot file rflags =>
-    match get_data C s slot file with
-    | None => (EBADF, s)
-    | Some h0 =>
-      let h := check_fd_flags (c_writeback C) h0 rflags in
-      let s1 := if c_no_open C then s else set_slot s slot (Some h) in
-      if hd_acc h =? 1 then (EBADF, s1) else (0, s1)        (* fd not open for reading *)
+    match get_data C s slot file (io_open_flags 0 rflags) with
+    | (e0, s0, None) => (e0, s0)
+    | (_, s0, Some h0) =>
+      let '(ef, h) := check_fd_flags C h0 rflags in
+      let s1 := if c_no_open C then s0 else set_slot s0 slot (Some h) in
+      if negb (ef =? 0) then (ef, s1)
+      else if fd_readable (hd_fd h) then (0, s1) else (EBADF, s1)
     end
   | Write slot file off len wflags =>
-    match get_data C s slot file with
-    | None => (EBADF, s)
-    | Some h0 =>
-      let h := check_fd_flags (c_writeback C) h0 wflags in
-      let s1 := if c_no_open C then s else set_slot s slot (Some h) in
-      let chk := if c_seal C then seal_size_check true (sizes s file) off len 0 else 0 in
-      if fx_append (c_fx C) && c_seal C && has wflags O_APPEND && negb (len =? 0) then (EPERM, s1)
+    match get_data C s slot file (io_open_flags 2 wflags) with
+    | (e0, s0, None) => (e0, s0)
+    | (_, s0, Some h0) =>
+      let '(ef, h) := check_fd_flags C h0 wflags in
+      let s1 := if c_no_open C then s0 else set_slot s0 slot (Some h) in
+      let chk := if c_seal C then seal_size_check true (sizes s0 file) off len 0 else 0 in
+      if negb (ef =? 0) then (ef, s1)
+      else if fx_append (c_fx C) && c_seal C && has wflags O_APPEND && negb (len =? 0) then (EPERM, s1)
       else if negb (chk =? 0) then (chk, s1)
       else if len =? 0 then (0, s1)                     (* nothing to copy: no pwrite is issued *)
-      else if hd_acc h =? 0 then                        (* fd not open for writing *)
+      else if negb (fd_writable (hd_fd h)) then         (* fd not open for writing *)
         (if I64_MAX <? off then (EINVAL, s1) else (EBADF, s1))
-      else let '(e, sz) := host_pwrite H (sizes s file) (hd_append h) off len in
+      else let '(e, sz) := host_pwrite H (sizes s0 file) (fd_append (hd_fd h)) off len in
            (e, set_size s1 file sz)
     end
   | Fallocate slot file mode off len =>
-    match get_data C s slot file with
-    | None => (EBADF, s)
-    | Some h =>
-      let chk := if c_seal C then seal_size_check false (sizes s file) off len mode else 0 in
-      if negb (chk =? 0) then (chk, s)
-      else let '(e, sz) := ho_falloc H (negb (hd_acc h =? 0)) (sizes s file) mode off len in
-           (e, set_size s file sz)
+    match get_data C s slot file (io_open_flags 2 0) with
+    | (e0, s0, None) => (e0, s0)
+    | (_, s0, Some h) =>
+      let chk := if c_seal C then seal_size_check false (sizes s0 file) off len mode else 0 in
+      if negb (chk =? 0) then (chk, s0)
+      else if fd_path (hd_fd h) then (EBADF, s0)
+      else let '(e, sz) := ho_falloc H (fd_writable (hd_fd h)) (sizes s0 file) mode off len in
+           (e, set_size s0 file sz)
     end
-  | Setattr file with_size newsize =>
-    if with_size && c_seal C then (EPERM, s)
-    else if with_size then
-      (if ho_maxbytes H <? newsize then (EFBIG, s) else (0, set_size s file newsize))
-    else (0, s)
+  | Setattr file with_size newsize fh =>
+    match setattr_data C s file fh with
+    | None => (EBADF, s)
+    | Some d =>
+      if with_size && c_seal C then (EPERM, s)
+      else
+        let bad := match d with Some h => if fd_path (hd_fd h) then EBADF else if with_size && negb (fd_writable (hd_fd h)) then EINVAL else 0
+                               | None => 0 end in        (* fchmod / ftruncate through the handle's descriptor *)
+        if negb (bad =? 0) then (bad, s)
+        else if with_size then
+          (if ho_maxbytes H <? newsize then (EFBIG, s) else (0, set_size s file newsize))
+        else (0, s)
+    end
   | Release slot file =>
     if c_no_open C then (ENOSYS, s)
     else match slots s slot with
@@ -230,12 +334,54 @@ Fixpoint list_eqb (a b : list N) : bool :=
   | _, _ => false
   end.
 
-(* cases: request, observed errno, observed sizes of files 0..n-1 after the request *)
-Fixpoint hist_check (H : host) (C : cfg) (nfiles : nat) (s : state) (cases : list (req * N * list N)) : bool :=
+(* an observation: request, observed errno, observed sizes of files 0..n-1 after the request ([Ob]: the same sizes
+   as after the previous request - initially [prev]) *)
+Inductive obs : Type :=
+| Ob (r : req) (e : N)
+| Oz (r : req) (e : N) (szs : list N).
+
+Fixpoint hist_check (H : host) (C : cfg) (nfiles : nat) (s : state) (prev : list N) (cases : list obs) : bool :=
   match cases with
   | [] => true
-  | (r, e, szs) :: t =>
+  | o :: t =>
+    let '(r, e, szs) := match o with Ob r e => (r, e, prev) | Oz r e z => (r, e, z) end in
     let '(e', s1) := step H C s r in
     (e' =? e) && list_eqb (map (fun i => sizes s1 (N.of_nat i)) (seq 0 nfiles)) szs
-    && hist_check H C nfiles s1 t
+    && hist_check H C nfiles s1 szs t
+  end.
+
+(* ---------------------------------------------------------------- the deterministic flag block of the tie *)
+(* the requests props/c18.py (flag_block) derives from a list of flag words, generated here from the same words so that a
+   case file carries the words and the observed errnos only; position [i] of the word decides a few variations *)
+Definition flag_block_word (no_open : bool) (f size : N) (i : nat) (w : N) : list req :=
+  [Read 0 f w; Write 0 f (size - 1) 1 w; Write 0 f size 1 w; Open 2 f w] ++
+  (if no_open then [] else
+     [Write 2 f 0 1 w; Read 2 f w; Write 2 f (size - 1) 1 2; Fallocate 2 f 0 0 1; Fallocate 2 f 0 size 1;
+      (if Nat.eqb (Nat.modulo i 3) 0 then Setattr f false 0 (Some 2) else Setattr f true (size + 1) (Some 2)); Release 2 f]) ++
+  [Create 2 f w] ++
+  (if no_open then
+     (if Nat.eqb (Nat.modulo i 4) 0 then [Fallocate 0 f 0 0 1; Fallocate 0 f 0 size 1; Setattr f true (size - 1) (Some 0)] else [])
+   else [Write 2 f (size - 1) (if Nat.even i then 2 else 1) w; Release 2 f]).
+
+Fixpoint flag_block_from (no_open : bool) (f size : N) (i : nat) (ws : list N) : list req :=
+  match ws with
+  | [] => []
+  | w :: t => flag_block_word no_open f size i w ++ flag_block_from no_open f size (S i) t
+  end.
+
+Definition flag_block (no_open : bool) (f size : N) (ws : list N) : list req :=
+  (if no_open then [] else [Open 0 f 2]) ++ flag_block_from no_open f size 0 ws ++ (if no_open then [] else [Release 0 f]).
+
+Fixpoint zip_ob (rs : list req) (es : list N) : option (list obs) :=
+  match rs, es with
+  | [], [] => Some []
+  | r :: rt, e :: et => match zip_ob rt et with Some l => Some (Ob r e :: l) | None => None end
+  | _, _ => None
+  end.
+
+(* the flag block of [ws] on file [f] was answered with the errnos [es] and no size ever differed from [prev] *)
+Definition flag_check (H : host) (C : cfg) (nfiles : nat) (s : state) (prev : list N) (f size : N) (ws es : list N) : bool :=
+  match zip_ob (flag_block (c_no_open C) f size ws) es with
+  | Some l => hist_check H C nfiles s prev l
+  | None => false
   end.
